@@ -356,6 +356,9 @@ func getAllFuncs(svc *parser.Service, tree *parser.Thrift, ret *[]funcTreePair) 
 			if sub != nil {
 				getAllFuncs(sub, subTree, &funcs)
 			}
+		} else if sub, _ := tree.GetService(svc.Extends); sub != nil && sub != svc {
+			// a name without a file prefix refers to a service of the same file
+			getAllFuncs(sub, tree, &funcs)
 		}
 	}
 	*ret = funcs
